@@ -1,22 +1,29 @@
 package main
 
 // C07 — a request passes iff security, every effective parameter and the body pass.
-// Real code exercised: openapi3filter.ValidateRequest (with ValidateSecurityRequirements,
-// ValidateParameter, ValidateRequestBody underneath) on operations built from the case.
+// Real code exercised: openapi3filter.ValidateRequest (with ValidateSecurityRequirements, ValidateParameter,
+// ValidateRequestBody underneath) on documents, routes and requests built from the case — the document as Go values
+// or marshalled and loaded back through openapi3.Loader (which resolves the `$ref` parameters), the route by hand, by
+// routers/gorillamux or by routers/legacy, the request by http.NewRequest or by httptest.NewRequest.
 
 import (
 	"bytes"
 	"context"
 	"errors"
 	"fmt"
+	"io"
 	"net/http"
+	"net/http/httptest"
 	"net/url"
 	"sort"
+	"strings"
 	"sync"
 
 	"github.com/getkin/kin-openapi/openapi3"
 	"github.com/getkin/kin-openapi/openapi3filter"
 	"github.com/getkin/kin-openapi/routers"
+	"github.com/getkin/kin-openapi/routers/gorillamux"
+	"github.com/getkin/kin-openapi/routers/legacy"
 
 	"kinverif/internal/hx"
 )
@@ -24,17 +31,20 @@ import (
 func init() {
 	hx.Register(&hx.Prop{
 		ID: "C07",
-		Rule: "exhaustive: 8 operation-level × 8 document-level security shapes × all 8 acceptance vectors of 3 schemes × 8 option sets × 6 parameter layouts " +
-			"(overrides, path-level query, failing/passing) × body present/absent/ok; plus seeded random operations with up to 4+4 parameters and 3 requirements. " +
-			"A case is non-trivial when the model reports at least one non-default branch (operation-level list, empty list/requirement, override, exclusion option in effect, multi-error, several failing parts).",
+		Rule: "exhaustive blocks: (1) 11 operation-level × 10 document-level security shapes (absent / [] / [{}] / one or several requirements, scopes, the same scheme under two requirements with different scopes, an undeclared scheme, optional authentication) × all 32 verdict vectors of the callback over the (scheme, scopes) pairs in use × fail-first/multi, and each shape pair without callback; " +
+			"(2) 15 parameter layouts (nil / empty / non-empty operation list, override, same name in another location, duplicates inside a list, a parameter after an overridden one, absent required / optional, `$ref` parameters) × all 8 option sets × 7 body shapes (none, valid, invalid, missing required, absent optional, undeclared media type) × passing/failing security; " +
+			"(3) every combination of request constructor (http.NewRequest, httptest.NewRequest) × route source (hand-built, gorillamux, legacy) × document source (Go values, marshalled and loaded) × callback reads the body or not × nil Options on a set of representative operations; the combinations also rotate through blocks 1 and 2; " +
+			"(4) a seeded random stream over all of these dimensions with up to 4+4 parameters and 3 requirements. " +
+			"A case is non-trivial when the model reports at least one non-default branch.",
 		Exhaustive: true,
 		Gen:        genC07,
 		Run:        runC07,
 		Compare:    cmpC07,
 		Shrink:     shrinkC07,
 		Assumptions: []string{
-			"verdicts of ValidateParameter/ValidateRequestBody are controlled through stub schemas (integer with maximum 9 or 1 against the value 5; body schema requiring a present or an absent property)",
-			"authentication callback non-nil (a nil callback is outside the property's quantifier)",
+			"the verdict of ValidateParameter for one parameter is controlled through (required, value sent or not, integer schema with maximum 9 or 1 against the value 5); the verdict of ValidateRequestBody through (required, body sent or not, Content-Type declared or not, object schema requiring a present or an absent property)",
+			"the authentication callback's verdict is a function of (scheme name, scopes); a callback whose verdict changes from call to call is outside the model",
+			"reading the request body into memory never fails (in-memory readers)",
 		},
 	})
 }
@@ -46,37 +56,59 @@ func jlist(v any) []any {
 func jstr(m map[string]any, k string) string { s, _ := m[k].(string); return s }
 func jbool(m map[string]any, k string) bool  { b, _ := m[k].(bool); return b }
 
-func c07Param(pm map[string]any) *openapi3.ParameterRef {
-	max := 9.0
-	if !jbool(pm, "ok") {
-		max = 1.0
-	}
-	sch := openapi3.NewIntegerSchema()
-	sch.Max = &max
-	p := &openapi3.Parameter{Name: jstr(pm, "name"), In: jstr(pm, "in"), Schema: sch.NewRef()}
-	if p.In == "path" {
-		p.Required = true
-	}
-	return &openapi3.ParameterRef{Value: p}
+func c07Key(scheme string, scopes []string) string {
+	return scheme + "(" + strings.Join(scopes, ",") + ")"
 }
 
 func c07Reqs(v any) openapi3.SecurityRequirements {
 	srs := openapi3.SecurityRequirements{}
 	for _, r := range jlist(v) {
 		sr := openapi3.SecurityRequirement{}
-		for _, n := range jlist(r) {
-			sr[n.(string)] = []string{}
+		for _, u := range jlist(r) {
+			um, _ := u.(map[string]any)
+			sr[jstr(um, "s")] = toStrs(um["sc"])
 		}
 		srs = append(srs, sr)
 	}
 	return srs
 }
 
-func runC07(c hx.Case) any {
+type c07built struct {
+	doc        *openapi3.T
+	pathItem   *openapi3.PathItem
+	op         *openapi3.Operation
+	path       string
+	urlPath    string
+	pathValues map[string]string
+}
+
+// c07Doc builds the document of the case from Go values.
+func c07Doc(c hx.Case) *c07built {
 	doc := &openapi3.T{OpenAPI: "3.0.0", Info: &openapi3.Info{Title: "t", Version: "1"}, Paths: openapi3.NewPaths()}
-	doc.Components = &openapi3.Components{SecuritySchemes: openapi3.SecuritySchemes{}}
-	for _, n := range jlist(c["declared"]) {
-		doc.Components.SecuritySchemes[n.(string)] = &openapi3.SecuritySchemeRef{Value: openapi3.NewSecurityScheme().WithType("http").WithScheme("basic")}
+	how := jstr(c, "undeclaredHow")
+	switch how {
+	case "noComponents":
+	case "noSchemes":
+		doc.Components = &openapi3.Components{}
+	default:
+		doc.Components = &openapi3.Components{SecuritySchemes: openapi3.SecuritySchemes{}}
+		for _, n := range jlist(c["declared"]) {
+			s := openapi3.NewSecurityScheme().WithType("http").WithScheme("basic")
+			s.Description = n.(string)
+			doc.Components.SecuritySchemes[n.(string)] = &openapi3.SecuritySchemeRef{Value: s}
+		}
+		if how == "nilValue" {
+			for _, k := range []string{"opSecurity", "docSecurity"} {
+				for _, r := range jlist(c[k]) {
+					for _, u := range jlist(r) {
+						n := jstr(u.(map[string]any), "s")
+						if _, ok := doc.Components.SecuritySchemes[n]; !ok {
+							doc.Components.SecuritySchemes[n] = &openapi3.SecuritySchemeRef{}
+						}
+					}
+				}
+			}
+		}
 	}
 	doc.Security = c07Reqs(c["docSecurity"])
 	op := &openapi3.Operation{Responses: openapi3.NewResponses()}
@@ -84,105 +116,224 @@ func runC07(c hx.Case) any {
 		s := c07Reqs(c["opSecurity"])
 		op.Security = &s
 	}
-	pathParamsVals := map[string]string{}
-	q := url.Values{}
-	req, _ := http.NewRequest("POST", "http://example.com/x", nil)
-	addReq := func(pm map[string]any) {
-		name := jstr(pm, "name")
-		switch jstr(pm, "in") {
-		case "path":
-			pathParamsVals[name] = "5"
-		case "query":
-			q.Set(name, "5")
-		case "header":
-			req.Header.Set(name, "5")
-		case "cookie":
-			found := false
-			for _, ck := range req.Cookies() {
-				if ck.Name == name {
-					found = true
-				}
-			}
-			if !found {
-				req.AddCookie(&http.Cookie{Name: name, Value: "5"})
+	b := &c07built{doc: doc, op: op, pathValues: map[string]string{}}
+	var pathNames []string
+	nref := 0
+	mk := func(pm map[string]any) *openapi3.ParameterRef {
+		max := 9.0
+		if !jbool(pm, "valid") {
+			max = 1.0
+		}
+		sch := openapi3.NewIntegerSchema()
+		sch.Max = &max
+		p := &openapi3.Parameter{Name: jstr(pm, "name"), In: jstr(pm, "in"), Schema: sch.NewRef(), Required: jbool(pm, "required")}
+		if p.In == "path" {
+			if _, seen := b.pathValues[p.Name]; !seen {
+				pathNames = append(pathNames, p.Name)
+				b.pathValues[p.Name] = "5"
 			}
 		}
-	}
-	for _, pm := range jlist(c["opParams"]) {
-		op.Parameters = append(op.Parameters, c07Param(pm.(map[string]any)))
-		addReq(pm.(map[string]any))
+		if jbool(pm, "ref") {
+			if doc.Components == nil {
+				doc.Components = &openapi3.Components{}
+			}
+			if doc.Components.Parameters == nil {
+				doc.Components.Parameters = openapi3.ParametersMap{}
+			}
+			nref++
+			key := fmt.Sprintf("P%d", nref)
+			doc.Components.Parameters[key] = &openapi3.ParameterRef{Value: p}
+			return &openapi3.ParameterRef{Ref: "#/components/parameters/" + key, Value: p}
+		}
+		return &openapi3.ParameterRef{Value: p}
 	}
 	pi := &openapi3.PathItem{Post: op}
 	for _, pm := range jlist(c["pathParams"]) {
-		pi.Parameters = append(pi.Parameters, c07Param(pm.(map[string]any)))
-		addReq(pm.(map[string]any))
+		pi.Parameters = append(pi.Parameters, mk(pm.(map[string]any)))
 	}
-	req.URL.RawQuery = q.Encode()
-	if jbool(c, "hasBody") {
+	if c["opParams"] != nil {
+		op.Parameters = openapi3.Parameters{}
+		for _, pm := range jlist(c["opParams"]) {
+			op.Parameters = append(op.Parameters, mk(pm.(map[string]any)))
+		}
+	}
+	if bm, ok := c["body"].(map[string]any); ok {
 		need := "a"
-		if !jbool(c, "bodyOK") {
+		if !jbool(bm, "valid") {
 			need = "b"
 		}
 		sch := openapi3.NewObjectSchema()
 		sch.Required = []string{need}
-		op.RequestBody = &openapi3.RequestBodyRef{Value: openapi3.NewRequestBody().WithJSONSchema(sch)}
-		body := []byte(`{"a":1}`)
-		req.Body = http.NoBody
-		req, _ = http.NewRequest("POST", req.URL.String(), bytes.NewReader(body))
-		req.Header.Set("Content-Type", "application/json")
-		// re-add header/cookie parameters on the new request
-		for _, l := range [][]any{jlist(c["opParams"]), jlist(c["pathParams"])} {
-			for _, pm := range l {
-				m := pm.(map[string]any)
-				if in := jstr(m, "in"); in == "header" || in == "cookie" {
-					func() {
-						name := jstr(m, "name")
-						if in == "header" {
-							req.Header.Set(name, "5")
-							return
-						}
-						for _, ck := range req.Cookies() {
-							if ck.Name == name {
-								return
-							}
-						}
-						req.AddCookie(&http.Cookie{Name: name, Value: "5"})
-					}()
+		rb := openapi3.NewRequestBody().WithJSONSchema(sch)
+		rb.Required = jbool(bm, "required")
+		op.RequestBody = &openapi3.RequestBodyRef{Value: rb}
+	}
+	b.pathItem = pi
+	b.path = "/x"
+	b.urlPath = "/x"
+	for _, n := range pathNames {
+		b.path += "/{" + n + "}"
+		b.urlPath += "/5"
+	}
+	doc.Paths.Set(b.path, pi)
+	return b
+}
+
+// c07Request builds the request of the case.
+func c07Request(c hx.Case, b *c07built, ctor string) *http.Request {
+	q := url.Values{}
+	var headers, cookies []string
+	seen := map[string]bool{}
+	for _, l := range [][]any{jlist(c["pathParams"]), jlist(c["opParams"])} {
+		for _, x := range l {
+			pm := x.(map[string]any)
+			key := jstr(pm, "in") + ":" + jstr(pm, "name")
+			if !jbool(pm, "sent") || seen[key] {
+				continue
+			}
+			seen[key] = true
+			switch jstr(pm, "in") {
+			case "query":
+				q.Set(jstr(pm, "name"), "5")
+			case "header":
+				headers = append(headers, jstr(pm, "name"))
+			case "cookie":
+				cookies = append(cookies, jstr(pm, "name"))
+			}
+		}
+	}
+	target := "http://example.com" + b.urlPath
+	if enc := q.Encode(); enc != "" {
+		target += "?" + enc
+	}
+	var body io.Reader
+	bm, _ := c["body"].(map[string]any)
+	kind := jstr(c, "bodyKind")
+	sent := bm != nil && jbool(bm, "sent") || bm == nil && kind == "json"
+	if sent {
+		body = bytes.NewReader([]byte(`{"a":1}`))
+	}
+	var req *http.Request
+	if ctor == "httptest" {
+		req = httptest.NewRequest("POST", target, body)
+	} else {
+		req, _ = http.NewRequest("POST", target, body)
+	}
+	if !sent {
+		switch kind {
+		case "nobody":
+			req.Body = http.NoBody
+		case "empty":
+			req.Body = io.NopCloser(bytes.NewReader(nil))
+		case "nil":
+			req.Body = nil
+		}
+	} else {
+		ct := "application/json"
+		if bm != nil && !jbool(bm, "ctOK") {
+			ct = "text/csv"
+		}
+		req.Header.Set("Content-Type", ct)
+	}
+	for _, h := range headers {
+		req.Header.Set(h, "5")
+	}
+	for _, ck := range cookies {
+		req.AddCookie(&http.Cookie{Name: ck, Value: "5"})
+	}
+	return req
+}
+
+func runC07(c hx.Case) any {
+	build, _ := c["build"].(map[string]any)
+	b := c07Doc(c)
+	docUsed := "struct"
+	if jstr(build, "doc") == "loaded" {
+		// marshal the document and load it back: the loader resolves the `$ref` parameters and rebuilds every object
+		if data, err := b.doc.MarshalJSON(); err == nil {
+			loader := openapi3.NewLoader()
+			if d2, err := loader.LoadFromData(data); err == nil {
+				if pi := d2.Paths.Find(b.path); pi != nil && pi.Post != nil {
+					b.doc, b.pathItem, b.op = d2, pi, pi.Post
+					docUsed = "loaded"
 				}
 			}
 		}
 	}
-	doc.Paths.Set("/x", pi)
+	req := c07Request(c, b, jstr(build, "req"))
+	route := &routers.Route{Spec: b.doc, Path: b.path, PathItem: b.pathItem, Method: "POST", Operation: b.op}
+	pathParams := b.pathValues
+	routeUsed := "direct"
+	switch jstr(build, "route") {
+	case "gorilla":
+		r, err := gorillamux.NewRouter(b.doc)
+		if err != nil {
+			return map[string]any{"routeError": "gorillamux.NewRouter: " + err.Error()}
+		}
+		rt, pp, err := r.FindRoute(req)
+		if err != nil {
+			return map[string]any{"routeError": "gorillamux FindRoute: " + err.Error()}
+		}
+		route, pathParams, routeUsed = rt, pp, "gorilla"
+	case "legacy":
+		// the legacy router validates the document first: documents it refuses (duplicate parameters, a scheme
+		// reference without value) are routed by hand
+		if r, err := legacy.NewRouter(b.doc); err == nil {
+			rt, pp, err := r.FindRoute(req)
+			if err != nil {
+				return map[string]any{"routeError": "legacy FindRoute: " + err.Error()}
+			}
+			route, pathParams, routeUsed = rt, pp, "legacy"
+		}
+	}
 	accepted := map[string]bool{}
 	for _, n := range jlist(c["accepted"]) {
 		accepted[n.(string)] = true
 	}
 	var mu sync.Mutex
 	authLog := []string{}
+	readsBody := jbool(c, "authReadsBody")
 	opts := &openapi3filter.Options{
 		ExcludeRequestBody:        jbool(c, "excludeBody"),
 		ExcludeRequestQueryParams: jbool(c, "excludeQuery"),
 		MultiError:                jbool(c, "multi"),
-		AuthenticationFunc: func(ctx context.Context, ai *openapi3filter.AuthenticationInput) error {
+	}
+	if !jbool(c, "authNil") {
+		opts.AuthenticationFunc = func(ctx context.Context, ai *openapi3filter.AuthenticationInput) error {
+			key := c07Key(ai.SecuritySchemeName, ai.Scopes)
+			var want *openapi3.SecurityScheme
+			if cs := route.Spec.Components; cs != nil {
+				if ref := cs.SecuritySchemes[ai.SecuritySchemeName]; ref != nil {
+					want = ref.Value
+				}
+			}
+			if ai.SecurityScheme == nil || ai.SecurityScheme != want {
+				key += "!scheme"
+			}
 			mu.Lock()
-			authLog = append(authLog, ai.SecuritySchemeName)
+			authLog = append(authLog, key)
 			mu.Unlock()
-			if accepted[ai.SecuritySchemeName] {
+			if readsBody {
+				if r := ai.RequestValidationInput.Request; r != nil && r.Body != nil {
+					_, _ = io.ReadAll(r.Body)
+				}
+			}
+			if accepted[c07Key(ai.SecuritySchemeName, ai.Scopes)] {
 				return nil
 			}
 			return errors.New("denied")
-		},
+		}
 	}
-	in := &openapi3filter.RequestValidationInput{Request: req, PathParams: pathParamsVals,
-		Route: &routers.Route{Spec: doc, Path: "/x", PathItem: pi, Method: "POST", Operation: op}, Options: opts}
+	in := &openapi3filter.RequestValidationInput{Request: req, PathParams: pathParams, Route: route, Options: opts}
+	if jbool(c, "optionsNil") {
+		in.Options = nil
+	}
 	err := openapi3filter.ValidateRequest(context.Background(), in)
 	parts := []string{}
 	var classify func(e error)
 	classify = func(e error) {
-		var me openapi3.MultiError
 		if m, ok := e.(openapi3.MultiError); ok {
-			me = m
-			for _, x := range me {
+			for _, x := range m {
 				classify(x)
 			}
 			return
@@ -204,10 +355,20 @@ func runC07(c hx.Case) any {
 			parts = append(parts, "other:"+e.Error())
 		}
 	}
+	shape := "nil"
 	if err != nil {
+		shape = "single"
+		if _, ok := err.(openapi3.MultiError); ok {
+			shape = "multi"
+		}
 		classify(err)
 	}
-	return map[string]any{"ok": err == nil, "parts": parts, "authLog": authLog}
+	kind := "reject"
+	if err == nil {
+		kind = "ok"
+	}
+	return map[string]any{"ok": err == nil, "shape": shape, "parts": parts, "authLog": authLog, "route": routeUsed, "doc": docUsed,
+		"kind": kind + "/doc:" + docUsed + "/route:" + routeUsed}
 }
 
 func sameStrs(a, b []string, ordered bool) bool {
@@ -238,6 +399,19 @@ func toStrs(v any) []string {
 	return out
 }
 
+func c07Uniq(l []string) []string {
+	out := []string{}
+	seen := map[string]bool{}
+	for _, s := range l {
+		if !seen[s] {
+			seen[s] = true
+			out = append(out, s)
+		}
+	}
+	sort.Strings(out)
+	return out
+}
+
 func cmpC07(c hx.Case, impl any, reply map[string]any) hx.Verdict {
 	im, _ := impl.(map[string]any)
 	model, _ := reply["model"].(map[string]any)
@@ -249,10 +423,18 @@ func cmpC07(c hx.Case, impl any, reply map[string]any) hx.Verdict {
 	if _, p := im["panic"]; p {
 		return hx.Verdict{IM: false, IS: false, Detail: "implementation panicked: " + fmt.Sprint(im["panic"])}
 	}
+	if e, bad := im["routeError"]; bad {
+		return hx.Verdict{IM: false, IS: true, Detail: "the runner could not route the request: " + fmt.Sprint(e)}
+	}
 	iparts, mparts := toStrs(im["parts"]), toStrs(model["parts"])
-	if jbool(im, "ok") != jbool(model, "ok") || !sameStrs(iparts, mparts, true) || !sameStrs(toStrs(im["authLog"]), toStrs(model["authLog"]), true) {
+	if jbool(im, "ok") != jbool(model, "ok") || jstr(im, "shape") != jstr(model, "shape") || !sameStrs(iparts, mparts, true) ||
+		!sameStrs(toStrs(im["authLog"]), toStrs(model["authLog"]), true) {
 		v.IM = false
 		v.Detail = fmt.Sprintf("impl %v vs model %v", hx.Canon(im), hx.Canon(model))
+	}
+	if b, ok := model["composeAgree"].(bool); ok && !b {
+		v.IM = false
+		v.Detail = "composition: the parameter decision of the C05 model or the body verdict of the C06 model differs from the bit the case's facts give"
 	}
 	sfail := toStrs(spec["failing"])
 	if jbool(im, "ok") != jbool(spec, "accept") {
@@ -260,7 +442,8 @@ func cmpC07(c hx.Case, impl any, reply map[string]any) hx.Verdict {
 		v.Detail = fmt.Sprintf("verdict: impl ok=%v, spec accept=%v (spec failing parts %v)", jbool(im, "ok"), jbool(spec, "accept"), sfail)
 	} else if !jbool(im, "ok") {
 		if jbool(c, "multi") {
-			if !sameStrs(iparts, sfail, false) {
+			// "the errors returned are exactly the failing parts": the same parts, as sets
+			if !sameStrs(c07Uniq(iparts), c07Uniq(sfail), true) {
 				v.IS = false
 				v.Detail = fmt.Sprintf("multi-error parts: impl %v, spec %v", iparts, sfail)
 			}
@@ -283,111 +466,311 @@ func cmpC07(c hx.Case, impl any, reply map[string]any) hx.Verdict {
 	return v
 }
 
+// ---------------------------------------------------------------- generator
+
+func c07U(s string, scopes ...string) map[string]any {
+	sc := []any{}
+	for _, x := range scopes {
+		sc = append(sc, x)
+	}
+	return map[string]any{"s": s, "sc": sc}
+}
+
 var c07SecShapes = []any{
 	nil,
 	[]any{},
 	[]any{[]any{}},
-	[]any{[]any{"a"}},
-	[]any{[]any{"b", "a"}},
-	[]any{[]any{"a"}, []any{"b"}},
-	[]any{[]any{"a", "b"}, []any{"c"}},
-	[]any{[]any{"u"}, []any{"c"}}, // u is never declared
+	[]any{[]any{c07U("a")}},
+	[]any{[]any{c07U("b"), c07U("a")}},
+	[]any{[]any{c07U("a")}, []any{c07U("b")}},
+	[]any{[]any{c07U("a"), c07U("b")}, []any{c07U("c")}},
+	[]any{[]any{c07U("u")}, []any{c07U("c")}},                 // u is never declared
+	[]any{[]any{c07U("a", "x")}, []any{c07U("a", "y")}},       // the same scheme under two requirements, other scopes
+	[]any{[]any{c07U("a", "x", "y"), c07U("b")}, []any{c07U("a")}},
+	[]any{[]any{c07U("a")}, []any{}},                          // optional authentication
 }
 
-func c07P(name, in string, ok bool) map[string]any {
-	return map[string]any{"name": name, "in": in, "ok": ok}
+// the (scheme, scopes) pairs the shapes use, for the verdict vectors
+var c07Keys = []string{"a()", "b()", "c()", "a(x)", "a(y)", "a(x,y)"}
+
+// name, in, then flags: R required, S sent, V valid, F by $ref
+func c07P(name, in, flags string) map[string]any {
+	return map[string]any{"name": name, "in": in, "required": strings.Contains(flags, "R") || in == "path",
+		"sent": strings.Contains(flags, "S") || in == "path", "valid": strings.Contains(flags, "V"), "ref": strings.Contains(flags, "F")}
 }
 
-var c07ParamLayouts = [][2][]any{
-	{{}, {}},
-	{{c07P("q", "query", true)}, {c07P("q", "query", false)}},                              // failing path-level one overridden
-	{{c07P("q", "query", false)}, {c07P("h", "header", false), c07P("id", "path", true)}}, // two failing
-	{{}, {c07P("q", "query", false)}},                                                      // path-level query
-	{{c07P("q", "header", true)}, {c07P("q", "query", false)}},                             // same name, other location: no override
-	{{c07P("c", "cookie", false), c07P("q", "query", false)}, {c07P("c", "cookie", true)}},
+// operation-level list (nil = no list at all), path-level list
+var c07ParamLayouts = [][2]any{
+	{nil, []any{}},
+	{[]any{}, []any{}},
+	{[]any{c07P("q", "query", "SV")}, []any{c07P("q", "query", "S")}},                                   // failing path-level one overridden
+	{[]any{c07P("q", "query", "S")}, []any{c07P("h", "header", "S"), c07P("id", "path", "V")}},          // two failing
+	{nil, []any{c07P("q", "query", "S")}},                                                              // path-level query, no operation list at all
+	{[]any{c07P("q", "header", "SV")}, []any{c07P("q", "query", "S")}},                                  // same name, other location: no override
+	{[]any{c07P("c", "cookie", "S"), c07P("q", "query", "S")}, []any{c07P("c", "cookie", "SV")}},
+	{[]any{c07P("id", "header", "SV"), c07P("id", "query", "SV")},
+		[]any{c07P("id", "query", "S"), c07P("id", "cookie", "S"), c07P("z", "header", "S")}},         // the overriding entry is not the first of that name
+	{[]any{c07P("q", "query", "SV")}, []any{c07P("q", "query", "S"), c07P("r", "header", "S")}},         // a failing one after an overridden one
+	{[]any{c07P("p", "query", "R")}, []any{}},                                                          // required, absent
+	{[]any{c07P("p", "query", ""), c07P("h", "header", "R")}, []any{c07P("c", "cookie", "")}},           // optional absent, required absent
+	{[]any{c07P("q", "query", "SV"), c07P("q", "query", "S")}, []any{c07P("q", "query", "S")}},          // duplicate inside the operation list
+	{[]any{}, []any{c07P("h", "header", "S"), c07P("h", "header", "SV")}},                               // duplicate inside the path-level list
+	{[]any{c07P("id", "path", "VF")}, []any{c07P("q", "query", "SF")}},                                  // parameters by $ref
+	{[]any{}, []any{c07P("q", "query", "S")}},                                                          // empty, non-nil operation list
 }
 
-func genC07(ctx *hx.Ctx, emit func(hx.Case)) {
-	subsets := [][]any{}
-	names := []string{"a", "b", "c"}
-	for m := 0; m < 8; m++ {
-		s := []any{}
-		for i, n := range names {
-			if m&(1<<i) != 0 {
-				s = append(s, n)
+func c07B(required, sent, ctOK, valid bool) map[string]any {
+	return map[string]any{"required": required, "sent": sent, "ctOK": ctOK, "valid": valid}
+}
+
+var c07Bodies = []any{
+	nil,
+	c07B(true, true, true, true),
+	c07B(true, true, true, false),
+	c07B(true, false, true, true),
+	c07B(false, false, true, true),
+	c07B(false, true, false, true),
+	c07B(false, true, true, false),
+}
+
+var c07Builds = func() []map[string]any {
+	var out []map[string]any
+	for _, r := range []string{"http", "httptest"} {
+		for _, rt := range []string{"direct", "gorilla", "legacy"} {
+			for _, d := range []string{"struct", "loaded"} {
+				out = append(out, map[string]any{"req": r, "route": rt, "doc": d})
 			}
 		}
-		subsets = append(subsets, s)
 	}
+	return out
+}()
+
+var c07BodyKinds = []string{"nil", "nobody", "empty"}
+
+func genC07(ctx *hx.Ctx, emit func(hx.Case)) {
 	declared := []any{"a", "b", "c"}
-	bodies := [][2]bool{{false, true}, {true, true}, {true, false}}
-	for _, opSec := range c07SecShapes {
-		for _, docSec := range c07SecShapes {
+	n := 0
+	out := func(c hx.Case) {
+		if _, ok := c["build"]; !ok {
+			c["build"] = c07Builds[n%len(c07Builds)]
+		}
+		if _, ok := c["bodyKind"]; !ok {
+			c["bodyKind"] = c07BodyKinds[n%len(c07BodyKinds)]
+		}
+		if _, ok := c["declared"]; !ok {
+			c["declared"] = declared
+		}
+		n++
+		emit(c)
+	}
+	subset := func(m int) []any {
+		s := []any{}
+		for i, k := range c07Keys {
+			if m&(1<<i) != 0 {
+				s = append(s, k)
+			}
+		}
+		return s
+	}
+	// which keys a shape pair can ask about (the verdict vectors range over these only)
+	keysOf := func(shapes ...any) []int {
+		var idx []int
+		for i, k := range c07Keys {
+			used := false
+			for _, sh := range shapes {
+				for _, r := range jlist(sh) {
+					for _, u := range jlist(r) {
+						um := u.(map[string]any)
+						if c07Key(jstr(um, "s"), toStrs(um["sc"])) == k {
+							used = true
+						}
+					}
+				}
+			}
+			if used {
+				idx = append(idx, i)
+			}
+		}
+		return idx
+	}
+	// (1) security
+	for oi, opSec := range c07SecShapes {
+		for di, docSec := range c07SecShapes {
 			if docSec == nil {
 				continue
 			}
-			for _, acc := range subsets {
-				for o := 0; o < 8; o++ {
-					for li, lay := range c07ParamLayouts {
-						b := bodies[(li+o)%3]
-						if !ctx.Thorough() && (li+o+len(acc))%2 == 1 && opSec != nil && len(jlist(opSec)) > 1 {
-							continue // quick tier thins the largest block by half
-						}
-						emit(hx.Case{"opParams": lay[0], "pathParams": lay[1], "opSecurity": opSec, "docSecurity": docSec,
-							"declared": declared, "accepted": acc, "hasBody": b[0], "bodyOK": b[1],
-							"excludeBody": o&1 != 0, "excludeQuery": o&2 != 0, "multi": o&4 != 0})
+			applicable := opSec
+			if opSec == nil {
+				applicable = docSec
+			}
+			ks := keysOf(applicable)
+			for m := 0; m < 1<<len(ks); m++ {
+				mask := 0
+				for j, k := range ks {
+					if m&(1<<j) != 0 {
+						mask |= 1 << k
 					}
+				}
+				for multi := 0; multi < 2; multi++ {
+					lay := c07ParamLayouts[(oi+di+m)%len(c07ParamLayouts)]
+					out(hx.Case{"opParams": lay[0], "pathParams": lay[1], "opSecurity": opSec, "docSecurity": docSec,
+						"accepted": subset(mask), "body": c07Bodies[(oi+m+multi)%len(c07Bodies)],
+						"excludeBody": false, "excludeQuery": (di+m)%3 == 0, "multi": multi == 1,
+						"authReadsBody": (oi+di+m)%2 == 0})
+				}
+			}
+			// no callback at all
+			for multi := 0; multi < 2; multi++ {
+				out(hx.Case{"opParams": nil, "pathParams": []any{}, "opSecurity": opSec, "docSecurity": docSec, "accepted": []any{},
+					"authNil": true, "body": nil, "excludeBody": false, "excludeQuery": false, "multi": multi == 1,
+					"optionsNil": multi == 0 && (oi+di)%2 == 0})
+			}
+			// every way a scheme can be undeclared
+			for hi, how := range []string{"noComponents", "noSchemes", "nilValue"} {
+				dcl := []any{}
+				if how == "nilValue" {
+					dcl = []any{"a"}
+				}
+				out(hx.Case{"opParams": nil, "pathParams": []any{}, "opSecurity": opSec, "docSecurity": docSec, "accepted": subset(63),
+					"declared": dcl, "undeclaredHow": how, "body": nil, "excludeBody": false, "excludeQuery": false, "multi": (oi+di+hi)%2 == 0})
+			}
+		}
+	}
+	// (2) parameters × options × body × passing / failing security
+	for li, lay := range c07ParamLayouts {
+		for o := 0; o < 8; o++ {
+			for bi, body := range c07Bodies {
+				for sec := 0; sec < 2; sec++ {
+					acc := []any{}
+					if sec == 0 {
+						acc = []any{"a()"}
+					}
+					out(hx.Case{"opParams": lay[0], "pathParams": lay[1], "opSecurity": nil, "docSecurity": c07SecShapes[3],
+						"accepted": acc, "body": body, "excludeBody": o&1 != 0, "excludeQuery": o&2 != 0, "multi": o&4 != 0,
+						"authReadsBody": (li+o+bi)%2 == 1})
 				}
 			}
 		}
 	}
-	// random stream
-	n := 4000
+	// (3) every construction of document, route and request, with and without a body-reading callback, on representative operations
+	for li, lay := range c07ParamLayouts {
+		for _, build := range c07Builds {
+			for rb := 0; rb < 2; rb++ {
+				for o := 0; o < 8; o++ {
+					if !ctx.Thorough() && (li+o+rb)%2 == 1 {
+						continue // the quick tier takes every other option set per layout
+					}
+					body := c07Bodies[(li+o)%len(c07Bodies)]
+					acc := []any{"a()", "a(x)"}
+					if o%3 == 0 {
+						acc = []any{}
+					}
+					out(hx.Case{"opParams": lay[0], "pathParams": lay[1], "opSecurity": c07SecShapes[(li+o)%len(c07SecShapes)],
+						"docSecurity": c07SecShapes[8], "accepted": acc, "body": body, "bodyKind": c07BodyKinds[(li+o+rb)%3],
+						"excludeBody": o&1 != 0, "excludeQuery": o&2 != 0, "multi": o&4 != 0, "authReadsBody": rb == 1, "build": build})
+				}
+			}
+		}
+		// nil Options: no exclusion, fail-first, no callback
+		for _, build := range c07Builds {
+			for _, sec := range []any{nil, c07SecShapes[1], c07SecShapes[2], c07SecShapes[3]} {
+				out(hx.Case{"opParams": lay[0], "pathParams": lay[1], "opSecurity": sec, "docSecurity": []any{}, "accepted": []any{},
+					"authNil": true, "optionsNil": true, "body": c07Bodies[li%len(c07Bodies)], "excludeBody": false, "excludeQuery": false,
+					"multi": false, "build": build})
+			}
+		}
+	}
+	// (4) random stream
+	count := 20000
 	if ctx.Thorough() {
-		n = 60000
+		count = 300000
 	}
 	r := ctx.Rng
 	ins := []string{"query", "header", "cookie", "path"}
 	pnames := []string{"p", "q", "r"}
-	randParams := func() []any {
-		out := []any{}
-		seen := map[string]bool{}
-		for i, k := 0, r.Intn(5); i < k; i++ {
-			p := c07P(hx.Pick(r, pnames), hx.Pick(r, ins), r.Chance(60))
-			key := jstr(p, "in") + ":" + jstr(p, "name")
-			if seen[key] {
-				continue // duplicates inside one list are rejected by document validation
+	for i := 0; i < count; i++ {
+		sentMap := map[string]bool{}
+		sentOf := func(in, name string) bool {
+			k := in + ":" + name
+			if v, ok := sentMap[k]; ok {
+				return v
 			}
-			seen[key] = true
-			out = append(out, p)
+			sentMap[k] = in == "path" || r.Chance(85)
+			return sentMap[k]
 		}
-		return out
-	}
-	schemes := []string{"a", "b", "c", "u"}
-	randReqs := func() any {
-		rs := []any{}
-		for i, k := 0, r.Intn(4); i < k; i++ {
-			req := []any{}
+		allowDup := r.Chance(15)
+		randParams := func() []any {
+			out := []any{}
 			seen := map[string]bool{}
-			for j, m := 0, r.Intn(4); j < m; j++ {
-				s := hx.Pick(r, schemes)
-				if !seen[s] {
-					seen[s] = true
-					req = append(req, s)
+			for i, k := 0, r.Intn(5); i < k; i++ {
+				name, in := hx.Pick(r, pnames), hx.Pick(r, ins)
+				key := in + ":" + name
+				if seen[key] && !allowDup {
+					continue
 				}
+				seen[key] = true
+				out = append(out, map[string]any{"name": name, "in": in, "required": in == "path" || r.Chance(50),
+					"sent": sentOf(in, name), "valid": r.Chance(80), "ref": r.Chance(15)})
 			}
-			rs = append(rs, req)
+			return out
 		}
-		return rs
-	}
-	for i := 0; i < n; i++ {
+		schemes := []string{"a", "b", "c", "u"}
+		scopeSets := [][]string{{}, {}, {"x"}, {"y"}, {"x", "y"}}
+		var keys []string
+		randReqs := func() any {
+			rs := []any{}
+			for i, k := 0, r.Intn(4); i < k; i++ {
+				req := []any{}
+				seen := map[string]bool{}
+				for j, m := 0, r.Intn(4); j < m; j++ {
+					s := hx.Pick(r, schemes)
+					if !seen[s] {
+						seen[s] = true
+						sc := hx.Pick(r, scopeSets)
+						req = append(req, c07U(s, sc...))
+						keys = append(keys, c07Key(s, sc))
+					}
+				}
+				rs = append(rs, req)
+			}
+			return rs
+		}
 		var opSec any
 		if r.Chance(50) {
 			opSec = randReqs()
 		}
-		emit(hx.Case{"opParams": randParams(), "pathParams": randParams(), "opSecurity": opSec, "docSecurity": randReqs(),
-			"declared": declared, "accepted": hx.Pick(r, subsets), "hasBody": r.Chance(60), "bodyOK": r.Chance(60),
-			"excludeBody": r.Chance(30), "excludeQuery": r.Chance(30), "multi": r.Bool()})
+		docSec := randReqs()
+		acc := []any{}
+		for _, k := range c07Uniq(keys) {
+			if r.Chance(70) {
+				acc = append(acc, k)
+			}
+		}
+		var opParams any
+		if r.Chance(85) {
+			opParams = randParams()
+		}
+		var body any
+		if r.Chance(65) {
+			body = c07B(r.Chance(50), r.Chance(80), r.Chance(90), r.Chance(80))
+		}
+		c := hx.Case{"opParams": opParams, "pathParams": randParams(), "opSecurity": opSec, "docSecurity": docSec,
+			"accepted": acc, "body": body, "bodyKind": hx.Pick(r, []string{"nil", "nobody", "empty", "json"}),
+			"excludeBody": r.Chance(30), "excludeQuery": r.Chance(30), "multi": r.Bool(),
+			"authReadsBody": r.Chance(40), "build": hx.Pick(r, c07Builds)}
+		if r.Chance(8) {
+			c["authNil"] = true
+		}
+		if r.Chance(10) {
+			how := hx.Pick(r, []string{"noComponents", "noSchemes", "nilValue"})
+			c["undeclaredHow"] = how
+			if how == "nilValue" {
+				c["declared"] = []any{"a"}
+			} else {
+				c["declared"] = []any{}
+			}
+		}
+		out(c)
 	}
 }
 
@@ -432,11 +815,49 @@ func shrinkC07(c hx.Case) []hx.Case {
 			}
 		}
 	}
-	for _, k := range []string{"excludeBody", "excludeQuery", "multi", "hasBody"} {
+	for _, k := range []string{"excludeBody", "excludeQuery", "multi", "authReadsBody", "optionsNil"} {
 		if jbool(c, k) {
 			x := cloneCase(c)
 			x[k] = false
 			out = append(out, x)
+		}
+	}
+	if c["body"] != nil {
+		x := cloneCase(c)
+		x["body"] = nil
+		out = append(out, x)
+	}
+	if b, ok := c["build"].(map[string]any); ok {
+		for k, plain := range map[string]string{"req": "http", "route": "direct", "doc": "struct"} {
+			if jstr(b, k) != plain {
+				x := cloneCase(c)
+				nb := map[string]any{}
+				for kk, vv := range b {
+					nb[kk] = vv
+				}
+				nb[k] = plain
+				x["build"] = nb
+				out = append(out, x)
+			}
+		}
+	}
+	// parameters by $ref → inline
+	for _, k := range []string{"opParams", "pathParams"} {
+		if l, ok := c[k].([]any); ok {
+			for i, p := range l {
+				if pm, ok := p.(map[string]any); ok && jbool(pm, "ref") {
+					x := cloneCase(c)
+					nl := append([]any{}, l...)
+					np := map[string]any{}
+					for kk, vv := range pm {
+						np[kk] = vv
+					}
+					np["ref"] = false
+					nl[i] = np
+					x[k] = nl
+					out = append(out, x)
+				}
+			}
 		}
 	}
 	return out
